@@ -282,9 +282,14 @@ class MovingWindow(ChangeDetector):
             exact format depends on annotation type
         """
         self.scores = self.transform_scores(X)
+        # Only admissible splits carry a score. The first and last `bandwidth` entries
+        # are zero placeholders, which exceed a negative (tuned) threshold.
+        n = len(self.scores)
+        admissible_scores = self.scores.values[self.bandwidth : n - self.bandwidth + 1]
         changepoints = get_moving_window_changepoints(
-            self.scores.values, self.threshold_, self.min_detection_interval
+            admissible_scores, self.threshold_, self.min_detection_interval
         )
+        changepoints = [int(cpt) + self.bandwidth for cpt in changepoints]
         return ChangeDetector._format_sparse_output(changepoints)
 
     @classmethod
